@@ -585,6 +585,105 @@ def r11_command_line_counts(chk, prog):
     chk.require(n >= 2, 'assignValue call sites in Handler: %d' % n)
 
 
+def r12_value_mode_table(chk, prog):
+    """pairing of a key with its value (Handler::processArg after the lookup), evaluated abstractly (Engine B) for
+    every combination of the argument's value mode {none, optional, required, command} and of what follows the key
+    {nothing, a value, another key}.  Expected: 'none' - handled without value, nothing consumed; 'command' -
+    handled with the rest of the line, result 'last'; 'required' - the following value is handed over and consumed
+    (the rest of a '-kvalue' word counts as the value: remArgStrAsVal() before the step), otherwise the 'requires
+    value' exception; 'optional' - a following value is handed over and consumed, otherwise handled without value
+    (and a glued rest is NOT taken as value)"""
+    from ..boolshape import Interp, NeedAtom, Unsupported, Throw
+    import itertools
+    f = prog.one('celma::prog_args::Handler', 'processArg')
+    en = prog.enums.get('celma::prog_args::Handler::ArgResult')
+    vm = [e for q, e in prog.enums.items() if q.endswith('::ValueMode')]
+    et = [e for q, e in prog.enums.items() if q.endswith('ArgListElement::Type')]
+    chk.require(en is not None and vm and et, 'enums ArgResult / ValueMode / ArgListElement::Type not found')
+    res_vals = {e['name']: e['val'] for e in en['enumerators']}
+    modes = {e['name']: e['val'] for e in vm[0]['enumerators']}
+    types = {e['name']: e['val'] for e in et[0]['enumerators']}
+    n = 0
+    for mode, nxt in itertools.product(('none', 'optional', 'required', 'command'), ('nothing', 'value', 'key')):
+        ev = {'handled': [], 'rem': False, 'advanced_ai': False}
+        ARG, END, NEXT, VAL, REST = 21, 9, 2, 77, 55
+
+        def cb_handle(it, call):
+            args = [a for a in call_args(call) if not a.get('defarg')]
+            ev['handled'].append((it.ev_obj(args[0]), it.ev_obj(args[2]) if len(args) >= 3 else None))
+            return 0
+
+        def cb_inc(it, call):
+            tgt = children(call)[1] if call.get('k') == 'CXXOperatorCallExpr' else object_of(call)
+            name = strip_all_casts(tgt).get('ref', {}).get('name')
+            if name is None:
+                raise Unsupported('step of an unnamed iterator')
+            it.set_atom(name, END if nxt == 'nothing' else NEXT)
+            return 0
+
+        def cb_assign(it, call):
+            kids = children(call)
+            lhs, rhs = strip_all_casts(kids[1]), kids[2]
+            name = lhs.get('ref', {}).get('name')
+            v = it.ev_obj(rhs)
+            if name == 'ai':
+                ev['advanced_ai'] = v == NEXT
+            it.set_atom(name, v)
+            return v
+
+        def cb_rem(it, call):
+            ev['rem'] = True
+            return 0
+
+        def cb_atom(it, key):
+            if key.endswith('.mElementType'):
+                return types['value'] if nxt == 'value' else types['stringArg']
+            if key.endswith('.mValue'):
+                return VAL
+            return None
+        cbs = {'findArg': lambda it, call: ARG if field_name(object_of(call)) == 'mArguments' else 0,
+               'findExactArg': lambda it, call: ARG if field_name(object_of(call)) == 'mArguments' else 0,
+               'key': lambda it, call: 1, 'valueMode': lambda it, call: modes[mode],
+               'handleIdentifiedArg': cb_handle, 'operator++': cb_inc, 'operator=': cb_assign,
+               'remArgStrAsVal': cb_rem, 'argsAsString': lambda it, call: REST, '<atom>': cb_atom}
+        it = Interp(f, {'key': 1, 'ai': 1, 'end': END, 'this.mpLastArg': 0}, callbacks=cbs, prog=None)
+        try:
+            out = it.run(f.body)
+        except (NeedAtom, Unsupported) as e:
+            raise AnalysisBroken('processArg value pairing not interpretable for (%s, %s): %s' % (
+                mode, nxt, getattr(e, 'key', e)))
+        got = ('throw',) if out[0] == 'throw' else (
+            {v: k for k, v in res_vals.items()}.get(out[1], out[1]), tuple(ev['handled']), ev['advanced_ai'])
+        if mode == 'none':
+            want = ('consumed', ((ARG, None),), False)
+        elif mode == 'command':
+            want = ('last', ((ARG, REST),), False)
+        elif nxt == 'value':
+            want = ('consumed', ((ARG, VAL),), True)
+        elif mode == 'optional':
+            want = ('consumed', ((ARG, None),), False)
+        else:
+            want = ('throw',)
+        n += 1
+
+        def show(o):
+            if o[0] == 'throw':
+                return 'an exception'
+            h = ', '.join('handled %s' % ('with the following value' if v == VAL else 'with the rest of the line'
+                                          if v == REST else 'without value' if v is None else 'with %r' % v)
+                          for _, v in o[1]) or 'not handled'
+            return '%s, result %s, following word %s' % (h, o[0], 'consumed' if o[2] else 'not consumed')
+        chk.check(got == want, 'R12', f.name, 'value mode %s, followed by %s: %s' % (mode, nxt, show(want)), f.loc(),
+                  'processArg: %s' % show(got))
+        if mode in ('optional', 'required'):
+            n += 1
+            chk.check(ev['rem'] == (mode == 'required') or got == ('throw',) and mode == 'required' and ev['rem'],
+                      'R12', f.name, "value mode %s, followed by %s: the rest of a '-kvalue' word %s" % (
+                          mode, nxt, 'is the value' if mode == 'required' else 'is not taken as value'), f.loc(),
+                      'remArgStrAsVal() %s' % ('called' if ev['rem'] else 'not called'))
+    chk.require(n >= 12, 'value-mode combinations evaluated: %d' % n)
+
+
 def run(chk):
     prog, units = rules.prog_args_program()
     chk.units = units
@@ -615,5 +714,7 @@ def run(chk):
     r10_value_constraint_scans(chk, prog)
     chk.rule('R11', 'command-line values are never exempt from the cardinality', 2)
     r11_command_line_counts(chk, prog)
+    chk.rule('R12', 'a key is paired with its value according to the value mode (exhaustive table)', 12)
+    r12_value_mode_table(chk, prog)
     from . import c02_shapes
     c02_shapes.run(chk, prog)
